@@ -88,7 +88,7 @@ theorem tie_header :
 theorem tie_pipeline :
     Tw.Gen.Demo.lits_write_message = [4, 0, 0, 1, 2, 3] ∧ Tw.Gen.Demo.write_message_le = true
     ∧ Tw.Gen.Demo.writer_compress_plain = true
-    ∧ Tw.Gen.Demo.lits_read_chunk = [0, 4, 4] ∧ Tw.Gen.Demo.read_chunk_le = true
+    ∧ Tw.Gen.Demo.lits_read_chunk = [4] ∧ Tw.Gen.Demo.read_chunk_le = true
     ∧ Tw.Gen.Demo.read_tick_test = ">="
     ∧ Tw.Gen.Demo.writer_asserts = ["new: length >= 0", "write_chunk_impl: data.len() <= MAX_SNAPSHOT_SIZE",
         "write_chunk_impl: expect too long compression", "write_message: msg.len() <= MAX_SNAPSHOT_SIZE",
